@@ -179,7 +179,7 @@ def _outer(ctx, p, rng):
 
 def _trace(ctx, p, rng):
     D, P, n = p['D'], p['P'], p['n']
-    m = n + int(rng.integers(0, 2))
+    m = max(1, n + int(rng.integers(-3, 4)))          # square, wide and tall (by one and by more than one)
     a = rng.normal(size=(D, P, n, m))
     ok, r = _call(ctx, 'trace', [algopy.trace, UTPM.trace][int(rng.integers(2))], UTPM(gen.relayout(a, gen.LAYOUTS[int(rng.integers(5))])))
     if not ok:
